@@ -1,11 +1,13 @@
 package rules
 
 import (
+	"fmt"
 	"go/types"
 	"strings"
 
 	"golang.org/x/tools/go/ssa"
 
+	"iocvet/internal/absint"
 	"iocvet/internal/core"
 )
 
@@ -71,7 +73,7 @@ func orderClass(c *core.Ctx, T types.Type) string {
 
 func c15(c *core.Ctx, r *core.Report) {
 	ro := c.Roles()
-	r.Explanation = "C15 configuration sources: (R1) the loader loop ranges forward over the sorted loaders, leaves early only with a non-nil error, and hands every non-empty result to Binder.SetConfig; (R2) every Binder.SetConfig implementation merges (viper.MergeConfig) and never replaces (ReadConfig); (R3) the adding options (app.SetConfig, app.AddConfigLoader) reach Configure.AddLoaders and never SetLoaders, SetLoaders has no other in-scope caller than the documented replacer and the default constructor; (R4) AddLoaders appends to the loader field that the loader loop sorts and ranges; (R5) loader classes: FileLoader is priority-ordered with constant Order 0, raw/args loaders are unordered; (R6) the default configuration installs the command-line loader and a binder. Decides order and non-loss of sources; viper's deep merge of keys is trusted."
+	r.Explanation = "C15 configuration sources: (R1) the loader loop ranges forward over the sorted loaders, leaves early only with a non-nil error, and hands every non-empty result to Binder.SetConfig; (R2) every Binder.SetConfig implementation merges (viper.MergeConfig) and never replaces (ReadConfig); (R3) the adding options (app.SetConfig, app.AddConfigLoader) reach Configure.AddLoaders and never SetLoaders, SetLoaders has no other in-scope caller than the documented replacer and the default constructor; (R4) AddLoaders appends to the loader field that the loader loop sorts and ranges; (R5) loader classes: FileLoader is priority-ordered with constant Order 0, raw/args loaders are unordered; (R6) the default configuration installs the command-line loader and a binder; (R7) the command-line loader maps exactly the --app.config=key=value arguments to key -> parsed value (decision table over concrete argument lists); (R8) file and raw loaders hand back exactly what they were given. Decides order and non-loss of sources; viper's deep merge of keys is trusted."
 	r.Assumptions = []string{"viper.MergeConfig deep-merges and later values win", "yaml/properties encoders are faithful"}
 
 	// ---- R1 loader loop
@@ -349,6 +351,7 @@ func c15(c *core.Ctx, r *core.Report) {
 		}
 		r.Check(usesDef, "C15.R6", "app.NewApp", c.FnPos(newApp), "NewApp starts from configure.Default()")
 	}
+	c15ArgsLoader(c, r)
 }
 
 func itoa(i int64) string {
@@ -412,4 +415,170 @@ func isLenNonZeroTest(cd core.CondEdge, v ssa.Value) bool {
 		return !cd.Branch
 	}
 	return false
+}
+
+// c15ArgsLoader: R7 — the command-line loader turns every --app.config=key=value argument (and only those) into
+// one entry key -> parsed value of the document it returns (decision table over concrete argument texts).
+func c15ArgsLoader(c *core.Ctx, r *core.Report) {
+	T := c.Named("configure/loader", "ArgsLoader")
+	if T == nil {
+		r.Undecided("C15.R7", "role:ArgsLoader", "", "loader.ArgsLoader not found")
+		return
+	}
+	fn := c.DeclaredMethod(T, "LoadConfig")
+	if fn == nil {
+		r.Undecided("C15.R7", "role:ArgsLoader.LoadConfig", "", "ArgsLoader.LoadConfig not found")
+		return
+	}
+	cases := []struct {
+		args []string
+		want []string
+	}{
+		{[]string{"prog"}, nil},
+		{[]string{"prog", "-v", "--logLevel=debug"}, nil},
+		{[]string{"prog", "--app.name=demo", "--application=x"}, nil},
+		{[]string{"prog", "--app.config=a.b=1"}, []string{`a.b=parsed("1")`}},
+		{[]string{"prog", "--app.config=a.b=1", "--other=x", "--app.config=flag", "--app.config=k=v=w"}, []string{`a.b=parsed("1")`, `flag=parsed("")`, `k=parsed("v=w")`}},
+		{[]string{"--app.config=x=1", "--app.config=x=2"}, []string{`x=parsed("1")`, `x=parsed("2")`}},
+	}
+	bad := ""
+	runs := 0
+	for _, cs := range cases {
+		var sets []string
+		var parseErr, yamlErr bool
+		var doc *absint.MapVal
+		build := func() (absint.Oracle, []absint.Value, []absint.Value) {
+			sets, parseErr, yamlErr, doc = nil, false, false, nil
+			t := newTbl(c)
+			in := &absint.List{}
+			for _, a := range cs.args {
+				in.Elems = append(in.Elems, absint.Str(a))
+			}
+			str := func(v absint.Value) string {
+				s, ok := v.(absint.Str)
+				if !ok {
+					panic(&absint.Undecided{Msg: "string function on a non-literal"})
+				}
+				return string(s)
+			}
+			t.ext["strings.HasPrefix"] = func(ip *absint.Interp, a []absint.Value) absint.Value {
+				return absint.Bool(strings.HasPrefix(str(a[0]), str(a[1])))
+			}
+			t.ext["strings.TrimPrefix"] = func(ip *absint.Interp, a []absint.Value) absint.Value {
+				return absint.Str(strings.TrimPrefix(str(a[0]), str(a[1])))
+			}
+			t.ext["strings.SplitN"] = func(ip *absint.Interp, a []absint.Value) absint.Value {
+				n, _ := a[2].(absint.Int)
+				l := &absint.List{}
+				for _, p := range strings.SplitN(str(a[0]), str(a[1]), int(n)) {
+					l.Elems = append(l.Elems, absint.Str(p))
+				}
+				return l
+			}
+			t.ext["strings.Cut"] = func(ip *absint.Interp, a []absint.Value) absint.Value {
+				b, af, f := strings.Cut(str(a[0]), str(a[1]))
+				return absint.Tuple{absint.Str(b), absint.Str(af), absint.Bool(f)}
+			}
+			t.ext["github.com/go-kid/properties.New"] = func(ip *absint.Interp, a []absint.Value) absint.Value {
+				doc = &absint.MapVal{M: map[string]absint.Value{}}
+				return doc
+			}
+			t.ext["(github.com/go-kid/properties.Properties).Set"] = func(ip *absint.Interp, a []absint.Value) absint.Value {
+				m, ok := a[0].(*absint.MapVal)
+				if !ok {
+					panic(&absint.Undecided{Msg: "Properties.Set on something else than the document"})
+				}
+				m.M[str(a[1])] = a[2]
+				m.IsNil = false
+				sets = append(sets, str(a[1])+"="+absint.Show(a[2]))
+				return nil
+			}
+			t.ext["github.com/go-kid/strconv2.ParseAny"] = func(ip *absint.Interp, a []absint.Value) absint.Value {
+				if parseErr = ip.Choose(2, "parse") == 1; parseErr {
+					return absint.Tuple{absint.Nil{}, t.newErr("parse")}
+				}
+				return absint.Tuple{absint.NewTok("parsed("+absint.Show(a[0])+")", "cfg"), absint.Nil{}}
+			}
+			t.ext["gopkg.in/yaml.v3.Marshal"] = func(ip *absint.Interp, a []absint.Value) absint.Value {
+				if yamlErr = ip.Choose(2, "yaml") == 1; yamlErr {
+					return absint.Tuple{&absint.List{IsNil: true}, t.newErr("yaml")}
+				}
+				if a[0] != absint.Value(doc) {
+					panic(&absint.Undecided{Msg: "yaml.Marshal of something else than the document"})
+				}
+				return absint.Tuple{absint.NewTok("yaml(document)", "bytes"), absint.Nil{}}
+			}
+			return t, []absint.Value{in}, nil
+		}
+		check := func(ip *absint.Interp, out absint.Outcome) {
+			w := fmt.Sprintf("args=%v sets=%v => %s", cs.args, sets, showOutcome(out))
+			if out.Panic != nil {
+				bad = "PANIC " + w
+				return
+			}
+			isErr := len(out.Ret) == 2 && isErrTok(out.Ret[1])
+			if parseErr || yamlErr {
+				if !isErr {
+					bad = "error not propagated: " + w
+				}
+				return
+			}
+			if strings.Join(sets, "|") != strings.Join(cs.want, "|") || isErr {
+				bad = w + " want " + strings.Join(cs.want, "|")
+				return
+			}
+			if len(cs.want) == 0 {
+				if l, ok := out.Ret[0].(*absint.List); !ok || len(l.Elems) != 0 {
+					bad = "no command-line configuration but a document is returned: " + w
+				}
+			} else if !isTokID(out.Ret[0], "yaml(document)") {
+				bad = "the document is not what is returned: " + w
+			}
+		}
+		n, u := runTable(c, fn, build, check)
+		runs += n
+		if u != "" {
+			bad = "left the model: " + u
+		}
+	}
+	r.Check(bad == "", "C15.R7", "args-loader@"+core.FnName(fn), c.FnPos(fn), fmt.Sprintf("every --app.config=key=value argument, and nothing else, becomes key -> parsed value (split at the first '=') of the returned document; no such argument yields no document; errors propagate (%d abstract runs) %s", runs, bad))
+	// R8 file and raw loaders hand back exactly what they were given
+	if fl := c.Named("configure/loader", "FileLoader"); fl != nil {
+		if m := c.DeclaredMethod(fl, "LoadConfig"); m != nil {
+			ok := false
+			for _, ci := range core.Calls(m) {
+				if call, isCall := ci.(*ssa.Call); isCall && core.IsExtCall(call.Common(), "os.ReadFile") {
+					arg := core.Norm(call.Common().Args[0])
+					if cv, isCv := arg.(*ssa.Convert); isCv {
+						arg = core.Norm(cv.X)
+					}
+					_, isRecv := arg.(*ssa.Parameter)
+					okRet := false
+					for _, ret := range core.Returns(m) {
+						if core.ClassifyReturn(ret) == core.RetSuccess && core.Norm(ret.Results[0]) == core.ResultValue(call, 0) {
+							okRet = true
+						}
+					}
+					u := core.ClassifyErr(call)
+					ok = isRecv && okRet && (u.Class == core.ErrTested || u.Class == core.ErrReturned)
+				}
+			}
+			r.Check(ok, "C15.R8", "file-loader@"+core.FnName(m), c.FnPos(m), "the file loader returns the bytes of the file named by the loader itself; a read error propagates")
+		}
+	}
+	if rl := c.Named("configure/loader", "RawLoader"); rl != nil {
+		if m := c.DeclaredMethod(rl, "LoadConfig"); m != nil {
+			ok := len(m.Blocks) == 1
+			for _, ret := range core.Returns(m) {
+				v := core.Norm(ret.Results[0])
+				if cv, isCv := v.(*ssa.Convert); isCv {
+					v = core.Norm(cv.X)
+				}
+				if _, isP := v.(*ssa.Parameter); !isP || !core.IsNilConst(ret.Results[1]) {
+					ok = false
+				}
+			}
+			r.Check(ok, "C15.R8", "raw-loader@"+core.FnName(m), c.FnPos(m), "the raw loader returns its own bytes")
+		}
+	}
 }
